@@ -129,6 +129,16 @@ class SList:
         return 'SList(len=%s, et=%s)' % (self.len, type_key(self.et) if self.et else None)
 
 
+class SFrac:
+    """an exact rational (fractions.Fraction / decimal value); plain z3 Real terms are Python floats"""
+
+    def __init__(self, term):
+        self.term = term
+
+    def __repr__(self):
+        return 'SFrac(%s)' % self.term
+
+
 class SRecord:
     """a mutable object whose fields the executor tracks (e.g. `self`)"""
 
@@ -198,6 +208,8 @@ def to_z3(v, t=None):
         if t == 'U':
             return z3.Const('str_' + v, U)
         return z3.StringVal(v)
+    if isinstance(v, SFrac):
+        return v.term
     if isinstance(v, SList):
         tt = t or ('list', v.et)
         if v.et is None:
@@ -236,6 +248,8 @@ def from_z3(term, t):
 
 
 def type_of_value(v):
+    if isinstance(v, SFrac):
+        return 'real'
     if isinstance(v, bool):
         return 'bool'
     if isinstance(v, int):
@@ -373,8 +387,12 @@ class Contract:
     calls: Dict[str, Callable] = field(default_factory=dict)
     consts: Dict[str, Any] = field(default_factory=dict)
     self_fields: Dict[str, str] = field(default_factory=dict)  # for methods: field name -> type
+    extra_inputs: Dict[str, str] = field(default_factory=dict)  # free (closure/global) variables treated as symbolic inputs
+    setup: Optional[Callable] = None  # setup(engine, state): bind extra environment entries after the inputs exist
     drop_decorators: bool = True
     float_as_real: bool = False
+    float_model: str = 'exact'  # 'exact': float ops are real ops (assumption recorded by the contract module);
+    #                             'relerr': every float operation result is the real result times (1+d), |d| <= 2**-53
     label: Optional[str] = None
     canaries: List[Tuple[str, str]] = field(default_factory=list)  # false "postconditions" that must be refuted
 
@@ -446,6 +464,8 @@ def _const_eval(node, env):
         return tuple(_const_eval(e, env) for e in node.elts)
     if isinstance(node, ast.Set):
         return frozenset(_const_eval(e, env) for e in node.elts)
+    if isinstance(node, ast.Dict) and all(k is not None for k in node.keys):
+        return {_const_eval(k, env): _const_eval(v, env) for k, v in zip(node.keys, node.values)}
     raise ValueError('not constant')
 
 
@@ -590,6 +610,14 @@ class Engine:
                 st.assume(w)
             st.env[p.arg] = v
             self.inputs[p.arg] = v
+        for name, tstr in c.extra_inputs.items():
+            v = fresh_value(parse_type(tstr), 'in_' + name)
+            for w in wf_constraints(v):
+                st.assume(w)
+            st.env[name] = v
+            self.inputs[name] = v
+        if c.setup is not None:
+            c.setup(self, st)
         for g, code in c.ghost_init.items():
             st.env[g] = self.ev(ast.parse(code, mode='eval').body, st)
         self.entry_env = dict(st.env)
@@ -656,7 +684,14 @@ class Engine:
     # ---- contract expressions
     def ev_bool_str(self, s: str, st: State):
         node = ast.parse(s.strip(), mode='eval').body
-        return self.truthy(self.ev(node, st))
+        was = getattr(self, 'in_spec', False)
+        self.in_spec = True
+        try:
+            return self.truthy(self.ev(node, st))
+        except PyRaise as r:
+            raise Undecided('contract expression %r raises %s' % (s[:80], r.exc))
+        finally:
+            self.in_spec = was
 
     # ---- statements
     def exec_block(self, stmts, st: State):
@@ -829,6 +864,10 @@ class Engine:
     # ---- assignment
     def assign(self, target, v, st: State):
         if isinstance(target, ast.Name):
+            if isinstance(v, SList) and v.et is None and target.id in self.c.types:
+                t = parse_type(self.c.types[target.id])
+                if isinstance(t, tuple) and t[0] == 'list':
+                    v = SList(v.len, z3.Const(fresh_name('emptyarr'), z3.ArraySort(z3.IntSort(), sort_of(t[1]))), t[1])
             st.env[target.id] = v
             return
         if isinstance(target, (ast.Tuple, ast.List)):
@@ -1128,6 +1167,10 @@ class Engine:
                 return self.uf('truthy', ['U'], 'bool')(v)
         if isinstance(v, SRecord):
             return z3.BoolVal(True)
+        if isinstance(v, SFrac):
+            return v.term != 0
+        if isinstance(v, SDotted):
+            return z3.BoolVal(True)
         raise Undecided('truthiness of %r' % (v,))
 
     def ev(self, node, st: State, stmt=False):
@@ -1139,6 +1182,8 @@ class Engine:
     def ev_Constant(self, node, st):
         if isinstance(node.value, float) and not self.c.float_as_real:
             raise Undecided('float constant (contract does not opt in to float_as_real)')
+        if isinstance(node.value, float) and self.c.float_model == 'relerr' and node.value != int(node.value):
+            raise Undecided('non-integral float constant under the relative-error float model')
         return node.value
 
     def ev_Name(self, node, st):
@@ -1251,6 +1296,8 @@ class Engine:
         return z3.BoolVal(False)
 
     def num(self, v):
+        if isinstance(v, SFrac):
+            return v.term
         if isinstance(v, bool):
             return z3.IntVal(int(v))
         if isinstance(v, int):
@@ -1284,12 +1331,16 @@ class Engine:
                 return to_z3(a) == to_z3(b)
             return self.num(a) == self.num(b)
         if ta == 'U' or tb == 'U':
+            if ta != tb and not isinstance(a, (SDotted, str, SExc)) and not isinstance(b, (SDotted, str, SExc)):
+                raise Undecided('comparison of an unmodelled value with a %s' % (tb if ta == 'U' else ta))
             return to_z3(a, 'U') == to_z3(b, 'U')
         if ta == tb:
             return to_z3(a, ta) == to_z3(b, tb)
         raise Undecided('equality between %s and %s' % (type_key(ta), type_key(tb)))
 
     def contains(self, cont, x, st):
+        if isinstance(cont, dict):
+            cont = tuple(cont.keys())
         if isinstance(cont, (tuple, frozenset, list)) and not (cont and cont[0] == 'range'):
             return z3.Or(*[self.equal(x, y) for y in cont]) if cont else z3.BoolVal(False)
         if isinstance(cont, SList):
@@ -1332,6 +1383,11 @@ class Engine:
         if isinstance(op, ast.Add) and isinstance(a, str) and isinstance(b, str):
             return a + b
         az, bz = self.num(a), self.num(b)
+        ka, kb = self.numkind(a), self.numkind(b)
+        if 'frac' in (ka, kb) or 'float' in (ka, kb) or isinstance(op, ast.Div):
+            r = self.real_binop(op, az, bz, ka, kb, st)
+            if r is not None:
+                return r
         if isinstance(op, ast.Add):
             return az + bz
         if isinstance(op, ast.Sub):
@@ -1357,6 +1413,50 @@ class Engine:
         if isinstance(op, ast.Pow) and isinstance(a, int) and a == 2:
             return self.pow2(bz, st, node)
         raise Undecided('binary operator %s on symbolic operands' % type(op).__name__)
+
+    def numkind(self, v):
+        if isinstance(v, SFrac):
+            return 'frac'
+        if isinstance(v, float):
+            return 'float'
+        if isinstance(v, z3.ExprRef) and z3.is_real(v):
+            return 'float'
+        return 'int'
+
+    def round_float(self, exact, st):
+        """result of one IEEE-754 double operation whose exact real value is `exact` (no overflow/underflow)"""
+        if self.c.float_model != 'relerr':
+            return exact
+        r = z3.Real(fresh_name('fl'))
+        u = z3.RealVal(1) / z3.RealVal(2**53)
+        st.assume(z3.If(exact >= 0, z3.And(r >= exact * (1 - u), r <= exact * (1 + u)), z3.And(r <= exact * (1 - u), r >= exact * (1 + u))))
+        return r
+
+    def real_binop(self, op, az, bz, ka, kb, st):
+        ar = z3.ToReal(az) if z3.is_int(az) else az
+        br = z3.ToReal(bz) if z3.is_int(bz) else bz
+        if isinstance(op, ast.Add):
+            e = ar + br
+        elif isinstance(op, ast.Sub):
+            e = ar - br
+        elif isinstance(op, ast.Mult):
+            e = ar * br
+        elif isinstance(op, ast.Div):
+            e = ar / br
+        else:
+            return None
+        if getattr(self, 'in_spec', False):
+            return SFrac(e)  # contract expressions are mathematical: exact
+        if 'float' in (ka, kb):
+            if not self.c.float_as_real:
+                raise Undecided('float arithmetic without float_as_real')
+            return self.round_float(e, st)
+        if 'frac' in (ka, kb):
+            return SFrac(e)
+        # int / int -> float
+        if not self.c.float_as_real:
+            raise Undecided('true division (float) without float_as_real')
+        return self.round_float(e, st)
 
     def floordiv(self, a, d, st, node):
         ds = z3.simplify(d)
@@ -1434,6 +1534,12 @@ class Engine:
         return self.index(cont, idx, st, node)
 
     def index(self, cont, idx, st, node=None):
+        if isinstance(cont, dict):
+            if isinstance(idx, (str, int)) or idx is None:
+                if idx in cont:
+                    return cont[idx]
+                raise PyRaise(SExc('KeyError'))
+            raise Undecided('symbolic key into a constant dict')
         if isinstance(cont, tuple):
             if isinstance(idx, int):
                 return cont[idx]
@@ -1662,7 +1768,20 @@ class Engine:
             if not self.c.float_as_real:
                 raise Undecided('float()')
             xz = self.num(args[0])
+            if isinstance(args[0], SFrac):
+                return self.round_float(xz, st)
             return z3.ToReal(xz) if z3.is_int(xz) else xz
+        if name == 'round' and len(args) == 1:
+            x = args[0]
+            if isinstance(x, (int, bool)):
+                return int(x)
+            xz = self.num(x)
+            if z3.is_int(xz):
+                return xz
+            f = z3.ToInt(xz)
+            d = xz - z3.ToReal(f)
+            half = z3.RealVal(1) / 2
+            return z3.If(d < half, f, z3.If(d > half, f + 1, z3.If(f % 2 == 0, f, f + 1)))
         if name == 'bool':
             return self.truthy(args[0])
         if name == 'range':
